@@ -121,7 +121,20 @@ func init() {
 				} else {
 					o = execSafe(b.ByID[ctx], &c.g, st)
 				}
-				enc.Encode(map[string]any{"ev": "exec", "h": h, "ctx": ctx, "env": traceEnv(env), "e": e, "text": text, "res": obsJSON(b, o)})
+				line := map[string]any{"ev": "exec", "h": h, "ctx": ctx, "env": traceEnv(env), "e": e, "text": text, "res": obsJSON(b, o)}
+				if c.err == nil && o.err == nil && o.panic == nil && o.res != nil {
+					// the convenience wrappers of the public API on the same call
+					func() {
+						defer func() { recover() }()
+						as, e1 := xsel.ExecAsString(b.ByID[ctx], &c.g, st...)
+						an, e2 := xsel.ExecAsNumber(b.ByID[ctx], &c.g, st...)
+						_, e3 := xsel.ExecAsNodeset(b.ByID[ctx], &c.g, st...)
+						if e1 == nil && e2 == nil {
+							line["api"] = map[string]any{"s": codes(as), "n": numOf(an), "ns": e3 == nil}
+						}
+					}()
+				}
+				enc.Encode(line)
 				events++
 			}
 		}
